@@ -34,6 +34,8 @@ def handleC11 (c : Case) : Verdict :=
   let last := match c.find "last" with | some r => r.getD 1 "none" | none => "none"
   let exit0 := match c.find "res" with | some r => r.getD 1 "1" == "0" | none => false
   let complete := mode == "complete"
+  -- exit code 99 = the harness gave up waiting for the command (hang / overloaded machine)
+  if (match c.find "res" with | some r => r.getD 1 "" == "99" | none => false) then .agree false ["run-timeout"] else
   let chk := stateRec c "check"
   let rold := stateRec c "restoreold"
   let rnew := stateRec c "restorenew"
